@@ -44,7 +44,7 @@ fn code_strategy() -> impl Strategy<Value = u64> {
 }
 
 pub fn case_strategy() -> impl Strategy<Value = Case> {
-    (0u8..3, prop_oneof![4 => Just(0u8), 3 => Just(1u8), 3 => Just(2u8), 1 => Just(3u8)], any::<bool>(), any::<bool>(), any::<bool>(), prop_oneof![Just(Signal::Reset), Just(Signal::Stop), Just(Signal::Finish)], code_strategy(), 0u8..3, 1u16..3000)
+    (0u8..3, prop_oneof![4 => Just(0u8), 3 => Just(1u8), 3 => Just(2u8), 2 => Just(3u8)], any::<bool>(), any::<bool>(), any::<bool>(), prop_oneof![Just(Signal::Reset), Just(Signal::Stop), Just(Signal::Finish)], code_strategy(), 0u8..3, 1u16..3000)
         .prop_map(|(flavor, pair, opener_is_client, bidi, reverse, signal, code, phase, k)| Case { flavor, pair, opener_is_client, bidi, reverse: reverse && bidi, signal, code, phase, k })
 }
 
@@ -219,7 +219,11 @@ fn pass(case: &Case) -> CaseResult {
         2 => "pair:wt-signals",
         _ => "pair:relay",
     };
-    CaseResult::Pass { nontrivial: case.code >= 64 || case.phase != 0, labels: vec![label, pair] }
+    let mut labels = vec![label, pair];
+    if case.pair % 4 == 3 && case.phase % 3 != 0 {
+        labels.push("finish-reissued-after-cancel");
+    }
+    CaseResult::Pass { nontrivial: case.code >= 64 || case.phase != 0, labels }
 }
 
 /// The raw peer raises the signal, the wtransport application observes it.
@@ -508,6 +512,22 @@ async fn exec_finish_needs_ack(case: Arc<Case>) -> CaseResult {
     if w.write_all(&body).await.is_err() {
         return viol("C06:finish:write", "write failed");
     }
+    // a first finish() is cancelled (after 0..3 polls or a short timeout) and re-issued: the
+    // re-issued call must still wait for the acknowledgement
+    match case.phase % 3 {
+        0 => {}
+        1 => {
+            // polled exactly once, then dropped (no wake-up can arrive while the black hole is on)
+            if let Some(r) = cancel_after(w.finish(), 1).await {
+                return viol("C06:finish:before-ack", format!("finish() = {r:?} on its first poll while every packet towards the peer is dropped"));
+            }
+        }
+        _ => {
+            if let Ok(r) = tokio::time::timeout(Duration::from_millis(40), w.finish()).await {
+                return viol("C06:finish:before-ack", format!("finish() = {r:?} within 40 ms while every packet towards the peer is dropped"));
+            }
+        }
+    }
     let fin = tokio::spawn(async move { w.finish().await });
     tokio::time::sleep(Duration::from_millis(300)).await;
     if fin.is_finished() {
@@ -553,7 +573,7 @@ pub fn run(run: &Run) {
         |c| judge(|| exec(c), true, "C06:signal-lost"),
         |c| serde_json::to_value(c).unwrap(),
     );
-    for l in ["signal:reset", "signal:stop", "signal:finish", "finish-needs-ack", "pair:wt-wt", "pair:raw-signals", "pair:wt-signals"] {
+    for l in ["signal:reset", "signal:stop", "signal:finish", "finish-needs-ack", "finish-reissued-after-cancel", "pair:wt-wt", "pair:raw-signals", "pair:wt-signals"] {
         run.essential(l);
     }
 }
